@@ -64,6 +64,12 @@ static J replay_doc(const char *cls, const char *site, const char *detail) {
 static void fail_handler(const char *cls, const char *site, const char *detail) {
 	if (g_in_fail) _exit(3);
 	g_in_fail = true;
+	if (g_cur && g_cur->prop && !g_cur->prop->owns(cls)) {
+		if (g_replay_mode) { printf("REPLAY-OK skipped-%s\n", cls); fflush(stdout); _exit(0); }
+		printf("SKIP %llu %s\n", (unsigned long long) g_cur_seed, cls);
+		fflush(stdout);
+		_exit(5);
+	}
 	if (g_replay_mode) {
 		printf("REPLAY-VIOLATION %s\t%s\t%s\n", cls, site, detail);
 		fflush(stdout);
